@@ -145,7 +145,7 @@ def cost_case(draw, classes=("E", "E", "F"), shapes=("tiny", "tiny", "tiny", "sm
 def e2e_config(draw, front=("single", "single", "joint"), max_N=3, max_W=4, max_K=4, t_range=(30, 120),
                limits=(1, 2, 3, 5, 5, 30, 30), betas=(0.0, 1.0, 10.0, 100.0, 1000.0), lam_forms=("scalar", "scalar", "const_matrix", "random_matrix"),
                beta_forms=("scalar", "scalar", "scalar", "vector"), eps_values=(0,), allow_degenerate=False, scales=False,
-               max_series=6, procs=(1,), allow_short=False, offsets=(), scale_prob=1.0, m_large=False, joint_vector=False):
+               max_series=6, procs=(1, 1, 1, 2, 3, 5), allow_short=False, offsets=(), scale_prob=1.0, m_large=False, joint_vector=False):
     fr = draw(st.sampled_from(list(front)))
     N = draw(st.integers(1, max_N))
     W = draw(st.integers(1, max_W))
@@ -176,7 +176,7 @@ def e2e_config(draw, front=("single", "single", "joint"), max_N=3, max_W=4, max_
         "lam": draw(st.sampled_from([0.0, 0.01, 0.11, 0.11, 0.5, 1.0])),
         "lam_form": draw(st.sampled_from(list(lam_forms))),
         "limit": draw(st.sampled_from(list(limits))),
-        "m": draw(st.integers(2, 6)),
+        "m": draw(st.sampled_from([1, 2, 2, 3, 4, 5, 6])),
         "biased": draw(st.booleans()),
         "eps": draw(st.sampled_from(list(eps_values))),
         "num_processors": draw(st.sampled_from(list(procs))),
@@ -187,6 +187,11 @@ def e2e_config(draw, front=("single", "single", "joint"), max_N=3, max_W=4, max_
         "series_as_views": draw(st.sampled_from([False, False, False, True, "interleaved"])),
         "mp_env": draw(st.sampled_from([False, False, True])),
         "quantise": draw(st.sampled_from([None, None, None, None, 1.0, 2.0])),
+        "stray_pair": draw(st.sampled_from([False, False, False, False, True])),
+        # how the caller hands things over: the documented positional order (data, window_size, num_clusters) instead of
+        # keywords; for the joint front end, any iterable of arrays (the front end says so), not only a list
+        "positional_call": draw(st.sampled_from([False, False, True])),
+        "series_container": draw(st.sampled_from(["list", "list", "tuple", "generator", "iterator"])),
     }
     if cfg["beta_form"] == "vector" and draw(st.booleans()):
         cfg["beta_vector_seed"] = draw(st.integers(0, 2 ** 16))
